@@ -63,6 +63,7 @@ var siteStatements = []string{
 	"(SELECT 1 UNION ALL SELECT 2) UNION DISTINCT SELECT 3 UNION ALL SELECT 4",
 	"SELECT 1 INTERSECT SELECT 2 EXCEPT SELECT 3 UNION ALL SELECT 4",
 	// shapes whose printers normalise, filter or re-type something on the way (each must work on copies)
+	"SELECT 0x1ffffffffffffffffff, 0XABCDEF0123456789ABCDEF", "SELECT 0xFFFFFFFFFFFFFFFFFFFFFFFF AS a, -0x10000000000000000", "SELECT [0x123456789abcdef0123, 0xfedcba98765432100]",
 	"ALTER TABLE t CLEAR STATISTICS a, b", "ALTER TABLE t ADD STATISTICS c TYPE countmin(5), uniq", "SELECT INTERVAL '2 years', INTERVAL '-3 day'", "SELECT count(*, x) FILTER (WHERE y > 0) FROM t",
 	"SELECT corr(a, b, c) FILTER (WHERE d) FROM t", "SELECT sum(a) FILTER (WHERE b), quantile(0.5)(x) FROM t", "INSERT INTO t SELECT 1 UNION ALL SELECT 2 FORMAT TSV", "EXPLAIN SELECT 1 FORMAT 'JSON' SETTINGS a = 1",
 	"SELECT 1 UNION ALL (SELECT 2 UNION ALL SELECT 3) UNION ALL SELECT 4", "SELECT x IN ((1, c), (2, 3)) AS r, -0, (-0, 1), [1, -x] FROM t", "SELECT * FROM t SAMPLE 1/10 OFFSET 1/2",
